@@ -302,9 +302,11 @@ Definition spec_ok (q : request) (pl : pipeline) (r : rule) (o : outcome) : bool
   | None => match o with NotForwarded _ => true | _ => false end
   | Some u =>
     match o with
-    | NotForwarded _ => may_be_refused r u || negb (scheme_usable r u)
+    | NotForwarded _ => may_be_refused r u || negb (scheme_usable r u) || q_fault q
     | Forwarded tls method uri host hs body =>
       let '(opath, oquery) := cut_on "?" uri in
+      (* "leaving ... body untouched": a body that did not arrive intact is never passed on as a complete request *)
+      negb (q_fault q) &&
       negb (must_be_refused r u) && scheme_usable r u &&
       Bool.eqb tls (String.eqb (expected_scheme r u) "https") &&
       String.eqb opath (let p := expected_path r u in if is_empty p then "/" else p) &&
